@@ -6,7 +6,37 @@ COMMON_TB = [
     "rustc/cargo, python translators, canonicalisation and diff code of the harness",
 ]
 
+VERIFREG_TB = COMMON_TB + [
+    "frc46_token (external crate) is modelled as an ideal ledger (balances, allowances, supply); the correspondence runs go through the real crate",
+    "actor kinds (account / miner / other), address resolution and receiver-hook acceptance are a table of the model filled from the harness world; AuthenticateMessage answers of RemoveVerifiedClientDataCap are environment booleans",
+    "allocations / claims are modelled as one id-keyed table each (ids come from one counter); the two-level HAMTs are exercised only by the correspondence runs",
+]
+
 PROPS = {
+    "C09": {
+        "lean_targets": ["BA.Props.C09"],
+        "harness": "c09",
+        "translators": ["extract_constants.py"],
+        "trusted_base": VERIFREG_TB,
+        "assumptions": [
+            "top-level message senders are never the registry or the token actor themselves (they only send the messages their code sends, which are inside the modelled steps)",
+            "chain epochs, sizes and terms fit i64/u64 (no wrap-around)",
+            "a repeated id in RemoveExpiredAllocations/RemoveExpiredClaims panics (abort of the message, nothing removed or refunded): modelled as an error, recorded as a note",
+            "a transfer listing the same claim extension twice burns the datacap once per entry (code and model agree; recorded as a note)",
+        ],
+    },
+    "C10": {
+        "lean_targets": ["BA.Props.C10"],
+        "harness": "c10",
+        "translators": ["extract_constants.py"],
+        "trusted_base": VERIFREG_TB + [
+            "miner side: only validate_extension_declarations / extend_sector_committment of SIMPLE_QA_POWER sectors are modelled (sector record {activation, expiration, power_base_epoch, verified_deal_weight}); partitions, deadlines, fees, deal weight are exercised only on the real actor",
+        ],
+        "assumptions": [
+            "extension_respects_claims assumes the claim ids declared for a sector (maintain + drop, over all declarations of the message) are distinct; the unchanged code does not enforce it: finding F2 (known_findings.json), proved as a negation witness and replayed on the real actors on every run",
+            "onboarding (prove-commit / replica-update) is exercised on the real actors only; the model starts from the sector record read back after activation",
+        ],
+    },
     "C16": {
         "lean_targets": ["BA.Props.C16"],
         "harness": "c16",
